@@ -276,6 +276,61 @@ func tallFamily(c *Ctx, prop string) {
 		}
 	}
 	c.Cov.Bound["aligned_unions.N"] = fmt.Sprint(auNs)
+	// chain family: long chains of small blocks (a sliding population, like a UTXO set): every
+	// block adds a leaves and deletes d live leaves chosen by a fixed policy (oldest, newest,
+	// every other, middle); every prefix of every chain is a run (oracle after each block)
+	chainLen := 24
+	if c.Thorough() {
+		chainLen = 48
+	}
+	nChains := 0
+	for _, a := range []int{1, 2, 3} {
+		for _, d := range []int{1, 2, 3} {
+			for _, policy := range []string{"oldest", "newest", "alternate", "middle"} {
+				for _, warm := range []int{0, 5} {
+					var hist []Op
+					var live []int
+					n := 0
+					if warm > 0 {
+						hist = append(hist, Op{Kind: "block", Adds: warm})
+						for i := 0; i < warm; i++ {
+							live = append(live, i)
+						}
+						n = warm
+					}
+					for b := 0; b < chainLen; b++ {
+						var dels []int
+						for k := 0; k < d && len(live) > 0; k++ {
+							idx := 0
+							switch policy {
+							case "newest":
+								idx = len(live) - 1
+							case "alternate":
+								if (b+k)%2 == 1 {
+									idx = len(live) - 1
+								}
+							case "middle":
+								idx = len(live) / 2
+							}
+							dels = append(dels, live[idx])
+							live = append(live[:idx], live[idx+1:]...)
+						}
+						sortInts(dels)
+						hist = append(hist, Op{Kind: "block", Dels: dels, Adds: a})
+						for i := 0; i < a; i++ {
+							live = append(live, n+i)
+						}
+						n += a
+						if b%2 == 1 || b == chainLen-1 {
+							runs = append(runs, run{append([]Op(nil), hist...)})
+						}
+					}
+					nChains++
+				}
+			}
+		}
+	}
+	c.Cov.Bound["chains"] = fmt.Sprintf("%d chains of %d blocks", nChains, chainLen)
 	c.Cov.Bound["very_tall.N"] = fmt.Sprint(vtNs)
 	c.Cov.Bound["very_tall.runs"] = vtRuns
 	c.Cov.Bound["medium.N"] = fmt.Sprint(medNs)
